@@ -46,3 +46,19 @@ package grpcservers
 //@   loop 0 invariant -1 <= rangeindex0 && rangeindex0 < len(in.BlobDigests) && sbAdds(inDigests.digests) == rangeindex0 + 1
 //@   loop 0 invariant unchanged(baCalls(s.contentAddressableStorage)) && unchanged(s.contentAddressableStorage)
 //@   loop 1 invariant -1 <= rangeindex1
+
+// The Action Cache service: a lookup or an update reaches the backend at most
+// once and only with a digest that parsed; an update reports exactly the
+// backend's verdict and echoes the result only together with it; a lookup
+// never returns a result together with an error.
+//@ func (*actionCacheServer).GetActionResult
+//@   requires s.blobAccess != nil && in != nil
+//@   ensures [backend-at-most-once] baCalls(s.blobAccess) <= old(baCalls(s.blobAccess)) + 1
+//@   ensures [no-result-with-an-error] result1 != nil ==> result0 == nil
+//@   callrequires Get [only-parsed-digests] err == nil
+//@ func (*actionCacheServer).UpdateActionResult
+//@   requires s.blobAccess != nil && in != nil
+//@   ensures [backend-at-most-once] baCalls(s.blobAccess) <= old(baCalls(s.blobAccess)) + 1
+//@   ensures [backends-verdict-reported] baCalls(s.blobAccess) != old(baCalls(s.blobAccess)) ==> result1 == baPutErr(s.blobAccess)
+//@   ensures [nothing-stored-for-a-bad-request] baCalls(s.blobAccess) == old(baCalls(s.blobAccess)) ==> result1 != nil && result0 == nil
+//@   callrequires Put [only-parsed-digests] err == nil
